@@ -4,11 +4,13 @@
   statements about the table hold for whatever the Newton loop produced.
 -/
 import LpProofs.C12.Lemmas
+import Mathlib.Tactic.Linarith
 import LpProofs.C12.Legendre
 import LpProofs.C12.N2
 import LpProofs.C12.N3
 import LpProofs.C12.RealGL
 import LpProofs.C12.Interval
+import LpProofs.C12.RealRoots
 namespace Lp.C12
 
 /-! ## [T1] gl_mirror -/
@@ -209,6 +211,96 @@ theorem integ_history_independent (f : Rat → Rat) (z pp : Nat → Nat → Rat)
     (integSeq f z pp (pre ++ (n, a, b) :: post))[pre.length]?
       = some (integrateGLrule f (glAssemble n a b (z n) (pp n))) := by
   simp [integSeq, integrateGL]
+
+/-! ## re-entrancy: nested use with limits depending on the outer variable -/
+
+/-- **nestedGL_eq**: the nested call is the outer quadrature sum of the inner quadrature sums, each inner sum
+    taken with the rule of its OWN `(nIn, lo x, hi x)` — no inner call changes the rule the outer loop uses. -/
+theorem nestedGL_eq (g : Rat → Rat → Rat) (lo hi : Rat → Rat) (a b : Rat) (nOut nIn : Nat) (z pp : Nat → Nat → Rat) :
+    nestedGL g lo hi a b nOut nIn z pp
+      = .ok (glSum (fun x => glSum (g x) nIn (lo x) (hi x) (z nIn) (pp nIn)) nOut a b (z nOut) (pp nOut)) := by
+  unfold nestedGL
+  have e : (fun x => valueOf (integrateGL (g x) (lo x) (hi x) nIn (z nIn) (pp nIn)))
+      = fun x => glSum (g x) nIn (lo x) (hi x) (z nIn) (pp nIn) := by
+    funext x
+    rw [(gl_overloads_agree (g x) (lo x) (hi x) nIn (z nIn) (pp nIn)).2.2]
+    rfl
+  rw [e]
+  exact (gl_overloads_agree _ a b nOut (z nOut) (pp nOut)).2.2
+
+/-- **nestedGL_exact**: if the inner rule integrates `y ↦ g x y` over `[lo x, hi x]` to `G x` for every `x`
+    and the outer rule integrates `G` over `[a,b]` to `V` (both hold for polynomials of degree ≤ 2n−1 by
+    `gl_exact_legendre_interval`), the nested call returns `V`. -/
+theorem nestedGL_exact (g : Rat → Rat → Rat) (lo hi : Rat → Rat) (a b : Rat) (nOut nIn : Nat) (z pp : Nat → Nat → Rat)
+    (G : Rat → Rat) (V : Rat)
+    (hin : ∀ x, glSum (g x) nIn (lo x) (hi x) (z nIn) (pp nIn) = G x)
+    (hout : glSum G nOut a b (z nOut) (pp nOut) = V) :
+    nestedGL g lo hi a b nOut nIn z pp = .ok V := by
+  rw [nestedGL_eq]
+  have e : (fun x => glSum (g x) nIn (lo x) (hi x) (z nIn) (pp nIn)) = G := funext hin
+  rw [e, hout]
+
+/-- the triangle integral ∫₀¹(∫₀ˣ 2y dy)dx with the one-point inner rule and the two-point outer rule built from
+    a candidate root `s`: the value is `(1 + 3 s²)/6 · …` — instance showing the hypotheses are met non-trivially -/
+example : nestedGL (fun _ y => 2 * y) (fun _ => 0) (fun x => x) 0 1 1 1 (fun _ _ => 0) (fun _ _ => 1) = .ok (1 / 4) := by
+  decide +kernel
+
+/-! ## every interval, however narrow: nodes strictly inside, weights positive (never zero) -/
+
+/-- **gl_node_inside**: for `a < b` and a root value strictly inside `(-1,1)` the node lies strictly inside `(a,b)` -/
+theorem gl_node_inside (n : Nat) (a b : Rat) (z pp : Nat → Rat) (hab : a < b) (k : Nat) (hk : k < n)
+    (hz : ∀ i, i < half n → -1 < z i ∧ z i < 1) :
+    a < node n a b z pp k ∧ node n a b z pp k < b := by
+  unfold node
+  rw [glTable_closed n a b z pp k hk]
+  have hh : 0 < xHalfWidth a b := by unfold xHalfWidth; linarith
+  by_cases h1 : n - 1 - k < half n
+  · obtain ⟨l, u⟩ := hz _ h1
+    simp only [if_pos h1]
+    have e1 : xHalfWidth a b * z (n - 1 - k) < xHalfWidth a b * 1 := mul_lt_mul_of_pos_left u hh
+    have e2 : xHalfWidth a b * (-1) < xHalfWidth a b * z (n - 1 - k) := mul_lt_mul_of_pos_left l hh
+    unfold xMiddle xHalfWidth at *
+    constructor <;> linarith
+  · have h2 : k < half n := by
+      rcases half_cover n k hk with h' | h'
+      · exact absurd h' h1
+      · exact h'
+    obtain ⟨l, u⟩ := hz _ h2
+    simp only [if_neg h1]
+    have e1 : xHalfWidth a b * z k < xHalfWidth a b * 1 := mul_lt_mul_of_pos_left u hh
+    have e2 : xHalfWidth a b * (-1) < xHalfWidth a b * z k := mul_lt_mul_of_pos_left l hh
+    unfold xMiddle xHalfWidth at *
+    constructor <;> linarith
+
+/-- **gl_weight_pos**: for `a < b`, roots strictly inside `(-1,1)` and `pp ≠ 0`, every weight is positive — in
+    particular never zero, however small `b - a` is relative to `|a|`, `|b|` -/
+theorem gl_weight_pos (n : Nat) (a b : Rat) (z pp : Nat → Rat) (hab : a < b) (k : Nat) (hk : k < n)
+    (hz : ∀ i, i < half n → -1 < z i ∧ z i < 1) (hp : ∀ i, i < half n → pp i ≠ 0) :
+    0 < weight n a b z pp k := by
+  unfold weight
+  rw [glTable_closed n a b z pp k hk]
+  have hr : rootIdx n k < half n := by
+    unfold rootIdx
+    by_cases h1 : n - 1 - k < half n
+    · simp [h1]
+    · simp only [if_neg h1]
+      rcases half_cover n k hk with h' | h'
+      · exact absurd h' h1
+      · exact h'
+  obtain ⟨l, u⟩ := hz _ hr
+  have hpp := hp _ hr
+  have hh : 0 < xHalfWidth a b := by unfold xHalfWidth; linarith
+  simp only []
+  unfold weightOf
+  apply div_pos (by linarith)
+  have h1 : 0 < 1 - z (rootIdx n k) * z (rootIdx n k) := by nlinarith
+  have h2 : 0 < pp (rootIdx n k) * pp (rootIdx n k) := mul_self_pos.mpr hpp
+  have : (1 - z (rootIdx n k) * z (rootIdx n k)) * pp (rootIdx n k) * pp (rootIdx n k)
+      = (1 - z (rootIdx n k) * z (rootIdx n k)) * (pp (rootIdx n k) * pp (rootIdx n k)) := by ring
+  rw [this]
+  exact mul_pos h1 h2
+
+example : 0 < weight 2 100000000000 100000000004 (fun _ => 1 / 2) (fun _ => 3 / 2) 0 := by decide +kernel
 
 /-! ## [T2] the coded recurrence, its derivative, the middle root, n = 1 -/
 
